@@ -106,6 +106,11 @@ def verdict_clauses(expected: List[list], recorded: List[list], prog: dict) -> L
             # the caller was due the result or the contract's error; building a message / binding the arguments of a
             # condition produced an error of the library instead
             res.append(("msg.replaced_by_other_exception", what))
+        elif ecls in VIOLATION_CLS and erole in ("pre", "post", "inv") and rcls in (
+                "Exception", "KI", "SysExit", "GenExit", "StopIter", "Assertion", "Key", "Type", "Attr"):
+            # the violated contract's error was due; the caller got an exception of user code instead (raised by a
+            # condition that was not to be evaluated any more)
+            res.append((erole + ".error_replaced", what))
         elif ecls in VIOLATION_CLS and rcls not in ("ret", ecls):
             # a violation was due in the contract's configured form; the caller got something of another class
             res.append(("err.form_dispatch", what))
